@@ -5,3 +5,4 @@ import Spec.Wire
 import Spec.Canon
 import Spec.Split
 import Spec.Dispatch
+import Spec.DictSpec
